@@ -920,7 +920,7 @@ def expand(
             if source:
                 # Create a subquery with the same alias (or table name if no alias)
                 parsed_source = source() if callable(source) else source
-                subquery = parsed_source.subquery(node.alias or name)
+                subquery = parsed_source.subquery(node.alias or node.name)
                 subquery.comments = [f"source: {name}"]
 
                 # Continue expanding within the subquery
